@@ -1,6 +1,701 @@
 From TU Require Import Base C01_Model.
-From Coq Require Import Lia.
+From Coq Require Import Lia ZifyBool ZifyN ZifyNat Permutation.
 Open Scope N_scope.
+Ltac Zify.zify_post_hook ::= Z.div_mod_to_equations.
+
+Lemma utf8_decode_cons c r : scalar c = true ->
+  utf8_decode (utf8 c ++ r) = option_map (cons c) (utf8_decode r).
+Proof.
+  intros Hs. unfold scalar in Hs. unfold utf8.
+  destruct (c <? 128) eqn:E1.
+  { cbn [app utf8_decode]. rewrite E1. reflexivity. }
+  destruct (c <? 2048) eqn:E2.
+  { cbn [app utf8_decode].
+    replace (192 + c / 64 <? 128) with false by lia.
+    replace (192 + c / 64 <? 194) with false by lia.
+    replace (192 + c / 64 <? 224) with true by lia.
+    unfold cont. replace ((128 <=? 128 + c mod 64) && (128 + c mod 64 <? 192)) with true by lia.
+    f_equal. f_equal. lia. }
+  destruct (c <? 65536) eqn:E3.
+  { cbn [app utf8_decode].
+    replace (224 + c / 4096 <? 128) with false by lia.
+    replace (224 + c / 4096 <? 194) with false by lia.
+    replace (224 + c / 4096 <? 224) with false by lia.
+    replace (224 + c / 4096 <? 240) with true by lia.
+    cbv zeta. unfold cont.
+    replace (224 + c / 4096 - 224) with (c / 4096) by lia.
+    replace (128 + (c / 64) mod 64 - 128) with ((c / 64) mod 64) by lia.
+    replace (128 + c mod 64 - 128) with (c mod 64) by lia.
+    replace (c / 4096 * 4096 + (c / 64) mod 64 * 64 + c mod 64) with c by lia.
+    replace ((128 <=? 128 + (c / 64) mod 64) && (128 + (c / 64) mod 64 <? 192)) with true by lia.
+    replace ((128 <=? 128 + c mod 64) && (128 + c mod 64 <? 192)) with true by lia.
+    replace (2048 <=? c) with true by lia. unfold scalar. rewrite Hs. reflexivity. }
+  cbn [app utf8_decode].
+  replace (240 + c / 262144 <? 128) with false by lia.
+  replace (240 + c / 262144 <? 194) with false by lia.
+  replace (240 + c / 262144 <? 224) with false by lia.
+  replace (240 + c / 262144 <? 240) with false by lia.
+  replace (240 + c / 262144 <? 245) with true by lia.
+  cbv zeta. unfold cont.
+  replace (240 + c / 262144 - 240) with (c / 262144) by lia.
+  replace (128 + (c / 4096) mod 64 - 128) with ((c / 4096) mod 64) by lia.
+  replace (128 + (c / 64) mod 64 - 128) with ((c / 64) mod 64) by lia.
+  replace (128 + c mod 64 - 128) with (c mod 64) by lia.
+  replace (c / 262144 * 262144 + (c / 4096) mod 64 * 4096 + (c / 64) mod 64 * 64 + c mod 64) with c by lia.
+  replace ((128 <=? 128 + (c / 4096) mod 64) && (128 + (c / 4096) mod 64 <? 192)) with true by lia.
+  replace ((128 <=? 128 + (c / 64) mod 64) && (128 + (c / 64) mod 64 <? 192)) with true by lia.
+  replace ((128 <=? 128 + c mod 64) && (128 + c mod 64 <? 192)) with true by lia.
+  replace (65536 <=? c) with true by lia.
+  replace (c <? 1114112) with true by lia. reflexivity.
+Qed.
+
+(** * equality tests *)
+Lemma nlist_eqb_eq a b : nlist_eqb a b = true <-> a = b.
+Proof.
+  revert b; induction a as [|x a IH]; intros [|y b]; cbn; split; intros H; try congruence; try reflexivity.
+  - apply andb_true_iff in H as [H1 H2]. apply N.eqb_eq in H1. apply IH in H2. congruence.
+  - injection H as -> ->. rewrite N.eqb_refl. cbn. apply IH. reflexivity.
+Qed.
+Lemma str_eqb_eq a b : str_eqb a b = true <-> a = b.
+Proof. apply nlist_eqb_eq. Qed.
+Lemma str_eqb_refl a : str_eqb a a = true.
+Proof. apply str_eqb_eq. reflexivity. Qed.
+Lemma str_eqb_neq a b : str_eqb a b = false <-> a <> b.
+Proof. split; intros H. - intros E. apply str_eqb_eq in E. congruence.
+  - destruct (str_eqb a b) eqn:E; [apply str_eqb_eq in E; contradiction|reflexivity]. Qed.
+
+(** * uniq *)
+Lemma uniq_In x l : In x (uniq l) <-> In x l.
+Proof.
+  induction l as [|y l IH]; cbn [uniq]; [tauto|]. cbn [In]. rewrite filter_In, IH.
+  split.
+  - intros [H|[H _]]; auto.
+  - intros [H|H]; [auto|]. destruct (str_eqb y x) eqn:E.
+    + left. apply str_eqb_eq in E. exact E.
+    + right. split; [exact H|reflexivity].
+Qed.
+
+Lemma NoDup_filter {A} (f : A -> bool) l : NoDup l -> NoDup (filter f l).
+Proof.
+  induction 1 as [|x l Hx Hl IH]; cbn; [constructor|].
+  destruct (f x); [constructor; [rewrite filter_In; tauto|exact IH]|exact IH].
+Qed.
+
+Lemma uniq_NoDup l : NoDup (uniq l).
+Proof.
+  induction l as [|y l IH]; cbn [uniq]; constructor.
+  - rewrite filter_In. intros [_ H]. rewrite str_eqb_refl in H. discriminate.
+  - apply NoDup_filter. exact IH.
+Qed.
+
+(** * index_of / nth_error *)
+Lemma index_of_nth t l k : index_of t l = Some k -> nth_error l k = Some t.
+Proof.
+  revert k; induction l as [|x l IH]; intros k; cbn [index_of]; [discriminate|].
+  destruct (str_eqb t x) eqn:E.
+  - intros H. injection H as <-. apply str_eqb_eq in E. subst. reflexivity.
+  - destruct (index_of t l) as [j|]; cbn; [|discriminate]. intros H. injection H as <-. cbn. apply IH. reflexivity.
+Qed.
+
+Lemma index_of_In t l : In t l -> exists k, index_of t l = Some k.
+Proof.
+  induction l as [|x l IH]; cbn [In index_of]; [tauto|]. intros H.
+  destruct (str_eqb t x) eqn:E; [eexists; reflexivity|].
+  destruct H as [H|H]; [subst; rewrite str_eqb_refl in E; discriminate|].
+  destruct (IH H) as [k ->]. eexists; reflexivity.
+Qed.
+
+Lemma index_of_lt t l k : index_of t l = Some k -> (k < length l)%nat.
+Proof. intros H. apply index_of_nth in H. apply nth_error_Some. congruence. Qed.
+
+Lemma nth_index_of l : NoDup l -> forall k t, nth_error l k = Some t -> index_of t l = Some k.
+Proof.
+  induction 1 as [|x l Hx Hl IH]; intros k t; [destruct k; discriminate|].
+  destruct k as [|k]; cbn [nth_error index_of].
+  - intros H. injection H as ->. rewrite str_eqb_refl. reflexivity.
+  - intros H. destruct (str_eqb t x) eqn:E.
+    + apply str_eqb_eq in E. subst. exfalso. apply Hx. eapply nth_error_In. exact H.
+    + rewrite (IH _ _ H). reflexivity.
+Qed.
+
+Lemma index_ofN_nth c l k : index_ofN c l = Some k -> nth_error l k = Some c.
+Proof.
+  revert k; induction l as [|x l IH]; intros k; cbn [index_ofN]; [discriminate|].
+  destruct (N.eqb c x) eqn:E.
+  - intros H. injection H as <-. apply N.eqb_eq in E. subst. reflexivity.
+  - destruct (index_ofN c l) as [j|]; cbn; [|discriminate]. intros H. injection H as <-. cbn. apply IH. reflexivity.
+Qed.
+
+(** * special vocabulary: ids and tokens are inverse *)
+Lemma sp_id_tok off sv t i : sp_id off sv t = Some i -> sp_tok off sv i = Some t /\ off <= i /\ i < off + N.of_nat (length sv).
+Proof.
+  unfold sp_id, sp_tok. destruct (index_of t sv) as [k|] eqn:E; cbn; [|discriminate].
+  intros H. injection H as <-. pose proof (index_of_lt _ _ _ E) as Hlt. apply index_of_nth in E.
+  replace (off + N.of_nat k <? off) with false by lia.
+  replace (N.to_nat (off + N.of_nat k - off)) with k by lia. split; [exact E|lia].
+Qed.
+
+Lemma sp_tok_id off sv t i : NoDup sv -> sp_tok off sv i = Some t -> sp_id off sv t = Some i.
+Proof.
+  unfold sp_id, sp_tok. intros Hnd. destruct (i <? off) eqn:E; [discriminate|].
+  intros H. rewrite (nth_index_of _ Hnd _ _ H). cbn. f_equal. lia.
+Qed.
+
+Lemma sp_id_In off sv t : In t sv -> exists i, sp_id off sv t = Some i.
+Proof. intros H. destruct (index_of_In _ _ H) as [k Hk]. unfold sp_id. rewrite Hk. eexists; reflexivity. Qed.
+
+Lemma sp_id_Some_In off sv t i : sp_id off sv t = Some i -> In t sv.
+Proof. intros H. apply sp_id_tok in H as [H _]. unfold sp_tok in H. destruct (i <? off); [discriminate|]. eapply nth_error_In; eauto. Qed.
+
+(** * map_opt *)
+Lemma map_opt_Forall2 {A B} (f : A -> option B) l r : map_opt f l = Some r -> Forall2 (fun x y => f x = Some y) l r.
+Proof.
+  revert r; induction l as [|x l IH]; intros r; cbn [map_opt].
+  - intros H. injection H as <-. constructor.
+  - destruct (f x) eqn:E; [|discriminate]. destruct (map_opt f l); [|discriminate].
+    intros H. injection H as <-. constructor; [exact E|apply IH; reflexivity].
+Qed.
+
+Lemma map_opt_all {A B} (f : A -> option B) l : (forall x, In x l -> exists y, f x = Some y) -> exists r, map_opt f l = Some r.
+Proof.
+  induction l as [|x l IH]; intros H; cbn [map_opt]; [eexists; reflexivity|].
+  destruct (H x (or_introl eq_refl)) as [y ->]. destruct IH as [r ->]; [intros; apply H; right; assumption|].
+  eexists; reflexivity.
+Qed.
+
+(** * is_prefix, first_match, scan *)
+Lemma is_prefix_app t s : is_prefix t s = true -> s = t ++ skipn (length t) s.
+Proof.
+  revert s; induction t as [|a t IH]; intros s; cbn [is_prefix]; [reflexivity|].
+  destruct s as [|b s]; [discriminate|]. intros H. apply andb_true_iff in H as [H1 H2].
+  apply N.eqb_eq in H1. subst. cbn. f_equal. apply IH. exact H2.
+Qed.
+
+Lemma is_prefix_app_r t r : is_prefix t (t ++ r) = true.
+Proof. induction t as [|a t IH]; cbn; [reflexivity|]. rewrite N.eqb_refl. exact IH. Qed.
+
+Lemma first_match_spec toks s t : first_match toks s = Some t -> In t toks /\ is_prefix t s = true.
+Proof.
+  induction toks as [|x toks IH]; cbn [first_match]; [discriminate|].
+  destruct (is_prefix x s) eqn:E.
+  - intros H. injection H as <-. split; [left; reflexivity|exact E].
+  - intros H. destruct (IH H). split; [right; assumption|assumption].
+Qed.
+
+Lemma first_match_None toks s : first_match toks s = None -> forall t, In t toks -> is_prefix t s = false.
+Proof.
+  induction toks as [|x toks IH]; cbn [first_match]; [intros _ t []|].
+  destruct (is_prefix x s) eqn:E; [discriminate|]. intros H t [<-|Ht]; [exact E|apply IH; assumption].
+Qed.
 
 Lemma cons_reg_str c segs : concat (map seg_str (cons_reg c segs)) = c :: concat (map seg_str segs).
 Proof. destruct segs as [|[r|t] rest]; reflexivity. Qed.
+
+(** [scan] partitions the text, for every token list (= every alternation order). *)
+Lemma scan_skipn toks : Forall (fun t => t <> []) toks ->
+  forall s k, concat (map seg_str (scan toks s k)) = skipn k s.
+Proof.
+  intros Hne. induction s as [|c r IH]; intros k; cbn [scan].
+  - destruct k; reflexivity.
+  - destruct k as [|k]; [|cbn [skipn]; apply IH].
+    destruct (first_match toks (c :: r)) as [t|] eqn:E.
+    + apply first_match_spec in E as [Hin Hp]. cbn [map concat seg_str]. rewrite IH.
+      pose proof (is_prefix_app _ _ Hp) as Hs. rewrite Forall_forall in Hne. specialize (Hne _ Hin).
+      destruct t as [|a t]; [congruence|]. cbn [length skipn app] in Hs |- *.
+      replace (S (length t) - 1)%nat with (length t) by lia. exact (eq_sym Hs).
+    + rewrite cons_reg_str, IH. reflexivity.
+Qed.
+
+(** * order independence for prefix-free token sets *)
+Definition PrefixFree (toks : list str) : Prop :=
+  forall t u, In t toks -> In u toks -> is_prefix t u = true -> t = u.
+
+Lemma is_prefix_both t u s : is_prefix t s = true -> is_prefix u s = true ->
+  is_prefix t u = true \/ is_prefix u t = true.
+Proof.
+  revert u s; induction t as [|a t IH]; intros u s; [left; reflexivity|].
+  destruct u as [|b u]; [right; reflexivity|]. destruct s as [|c s]; cbn [is_prefix]; [discriminate|].
+  intros H1 H2. apply andb_true_iff in H1 as [E1 H1]. apply andb_true_iff in H2 as [E2 H2].
+  apply N.eqb_eq in E1, E2. subst. rewrite N.eqb_refl. cbn. eapply IH; eauto.
+Qed.
+
+Lemma first_match_some toks s t : In t toks -> is_prefix t s = true -> exists u, first_match toks s = Some u.
+Proof.
+  intros Hin Hp. destruct (first_match toks s) eqn:E; [eexists; reflexivity|].
+  rewrite (first_match_None _ _ E _ Hin) in Hp. discriminate.
+Qed.
+
+Lemma first_match_perm toks toks' s : PrefixFree toks -> Permutation toks toks' ->
+  first_match toks' s = first_match toks s.
+Proof.
+  intros Hpf Hperm. destruct (first_match toks s) as [t|] eqn:E.
+  - apply first_match_spec in E as [Hin Hp].
+    destruct (first_match_some toks' s t) as [u Hu]; [eapply Permutation_in; eauto|exact Hp|].
+    rewrite Hu. f_equal. apply first_match_spec in Hu as [Hin' Hp'].
+    apply Permutation_sym in Hperm. pose proof (Permutation_in _ Hperm Hin') as Hin2.
+    destruct (is_prefix_both _ _ _ Hp Hp') as [H|H]; [symmetry|]; apply Hpf; assumption.
+  - destruct (first_match toks' s) as [u|] eqn:E'; [|reflexivity]. exfalso.
+    apply first_match_spec in E' as [Hin' Hp']. apply Permutation_sym in Hperm.
+    rewrite (first_match_None _ _ E _ (Permutation_in _ Hperm Hin')) in Hp'. discriminate.
+Qed.
+
+Lemma scan_perm_l toks toks' : PrefixFree toks -> Permutation toks toks' ->
+  forall s k, scan toks' s k = scan toks s k.
+Proof.
+  intros Hpf Hperm. induction s as [|c r IH]; intros k; cbn [scan]; [reflexivity|].
+  destruct k as [|k]; [|apply IH]. rewrite (first_match_perm _ _ _ Hpf Hperm).
+  destruct (first_match toks (c :: r)); rewrite IH; reflexivity.
+Qed.
+
+Lemma is_prefix_refl t : is_prefix t t = true.
+Proof. induction t as [|a t IH]; cbn; [reflexivity|]. rewrite N.eqb_refl. exact IH. Qed.
+
+Lemma prefix_freeb_spec sv : prefix_freeb sv = true <-> PrefixFree sv.
+Proof.
+  unfold prefix_freeb, PrefixFree. rewrite forallb_forall. split.
+  - intros H t u Ht Hu Hp. specialize (H t Ht). rewrite forallb_forall in H. specialize (H u Hu).
+    rewrite Hp in H. cbn in H. rewrite orb_false_r in H. apply str_eqb_eq. exact H.
+  - intros H t Ht. rewrite forallb_forall. intros u Hu. destruct (is_prefix t u) eqn:E; cbn.
+    + rewrite orb_false_r. apply str_eqb_eq. apply H; assumption.
+    + apply orb_true_r.
+Qed.
+
+(** * every special segment of a scan is one of the tokens; regular segments are non-empty *)
+Definition seg_in (toks : list str) (g : seg) : Prop :=
+  match g with Spec t => In t toks | Reg r => r <> [] end.
+
+Lemma scan_seg_in toks s k : Forall (seg_in toks) (scan toks s k).
+Proof.
+  revert k; induction s as [|c r IH]; intros k; cbn [scan]; [constructor|].
+  destruct k as [|k]; [|apply IH]. destruct (first_match toks (c :: r)) as [t|] eqn:E.
+  - constructor; [apply first_match_spec in E as [H _]; exact H|apply IH].
+  - specialize (IH O). destruct (scan toks r 0) as [|[r'|t'] rest]; cbn [cons_reg].
+    + constructor; [cbn; congruence|constructor].
+    + inversion IH; subst. constructor; [cbn; congruence|assumption].
+    + constructor; [cbn; congruence|assumption].
+Qed.
+
+(** * UTF-8 *)
+Lemma utf8_decode_utf8s s : scalars s = true -> utf8_decode (utf8s s) = Some s.
+Proof.
+  unfold scalars. induction s as [|c s IH]; cbn [forallb utf8s flat_map]; [reflexivity|].
+  intros H. apply andb_true_iff in H as [H1 H2]. rewrite utf8_decode_cons by exact H1.
+  fold (utf8s s). rewrite (IH H2). reflexivity.
+Qed.
+
+Lemma utf8_lt256 c : scalar c = true -> Forall (fun b => b < 256) (utf8 c).
+Proof.
+  unfold scalar, utf8. intros Hs.
+  destruct (c <? 128) eqn:E1; [repeat constructor; lia|].
+  destruct (c <? 2048) eqn:E2; [repeat constructor; lia|].
+  destruct (c <? 65536) eqn:E3; repeat constructor; lia.
+Qed.
+
+Lemma utf8s_lt256 s : scalars s = true -> Forall (fun b => b < 256) (utf8s s).
+Proof.
+  unfold scalars. induction s as [|c s IH]; cbn [forallb utf8s flat_map]; [constructor|].
+  intros H. apply andb_true_iff in H as [H1 H2]. apply Forall_app. split; [apply utf8_lt256; exact H1|apply IH; exact H2].
+Qed.
+
+Lemma utf8s_app a b : utf8s (a ++ b) = utf8s a ++ utf8s b.
+Proof. unfold utf8s. apply flat_map_app. Qed.
+
+Lemma scalars_app a b : scalars (a ++ b) = scalars a && scalars b.
+Proof. unfold scalars. apply forallb_app. Qed.
+
+Lemma scalars_concat l : Forall (fun t => scalars t = true) l -> scalars (concat l) = true.
+Proof. induction 1 as [|t l Ht Hl IH]; cbn [concat]; [reflexivity|]. rewrite scalars_app, Ht, IH. reflexivity. Qed.
+
+(** * base construction *)
+Definition ids_of (b : base) (toks : list str) (ids : list N) : Prop :=
+  Forall2 (fun t i => sp_id (b_off b) (b_sv b) t = Some i) toks ids.
+
+Lemma mk_base_spec off tokens pad prefix suffix b :
+  mk_base off tokens pad prefix suffix = Some b ->
+  b_off b = off /\ b_sv b = uniq tokens /\ ids_of b prefix (b_pre b) /\ ids_of b suffix (b_suf b)
+  /\ sp_id off (uniq tokens) pad = Some (b_pad b).
+Proof.
+  unfold mk_base, ids_of.
+  destruct (map_opt (sp_id off (uniq tokens)) prefix) as [p|] eqn:Ep; [|discriminate].
+  destruct (map_opt (sp_id off (uniq tokens)) suffix) as [q|] eqn:Eq; [|discriminate].
+  destruct (sp_id off (uniq tokens) pad) as [pd|] eqn:Ed; [|discriminate].
+  intros H. injection H as <-. cbn. repeat split; try reflexivity; apply map_opt_Forall2; assumption.
+Qed.
+
+Lemma ids_of_length b toks ids : ids_of b toks ids -> length ids = length toks.
+Proof. induction 1; cbn; congruence. Qed.
+
+Lemma middle_app b body : middle b (b_pre b ++ body ++ b_suf b) = body.
+Proof.
+  unfold middle. rewrite !app_length.
+  replace (length (b_pre b) + (length body + length (b_suf b)) - length (b_pre b) - length (b_suf b))%nat
+    with (length body) by lia.
+  rewrite skipn_app, skipn_all, Nat.sub_diag. cbn [skipn app].
+  rewrite firstn_app, firstn_all, Nat.sub_diag. cbn [firstn]. apply app_nil_r.
+Qed.
+
+(** * byte tokenizer *)
+Definition seg_ids_rel (b : base) (g : seg) (l : list N) : Prop :=
+  match g with
+  | Reg r => l = utf8s r
+  | Spec t => exists i, sp_id (b_off b) (b_sv b) t = Some i /\ l = [i]
+  end.
+
+Lemma byte_segs_some b segs : Forall (seg_in (b_sv b)) segs ->
+  exists ls, map_opt (byte_seg_ids b) segs = Some ls /\ Forall2 (seg_ids_rel b) segs ls.
+Proof.
+  induction 1 as [|g segs Hg Hs IH]; cbn [map_opt]; [exists []; split; [reflexivity|constructor]|].
+  destruct IH as (ls & -> & Hls). destruct g as [r|t]; cbn [byte_seg_ids].
+  - eexists; split; [reflexivity|]. constructor; [reflexivity|exact Hls].
+  - cbn in Hg. destruct (sp_id_In (b_off b) _ _ Hg) as [i Hi]. rewrite Hi. cbn.
+    eexists; split; [reflexivity|]. constructor; [exists i; auto|exact Hls].
+Qed.
+
+Lemma byte_body_ign b s : byte_body b s true = Some (utf8s s).
+Proof. unfold byte_body, split_input. cbn. rewrite app_nil_r. reflexivity. Qed.
+
+Lemma byte_body_parse b s : exists ls, byte_body b s false = Some (concat ls)
+  /\ Forall2 (seg_ids_rel b) (scan (b_sv b) s 0) ls.
+Proof.
+  unfold byte_body, split_input. destruct (byte_segs_some b _ (scan_seg_in (b_sv b) s 0)) as (ls & -> & H).
+  exists ls. split; [reflexivity|exact H].
+Qed.
+
+Lemma byte_tokenize_shape_l tokens padto pad prefix suffix b s ign :
+  byte_base tokens padto pad prefix suffix = Some b ->
+  ids_of b prefix (b_pre b) /\ ids_of b suffix (b_suf b) /\ b_off b = 256 /\
+  exists body, byte_tokenize b s ign = Some (b_pre b ++ body ++ b_suf b)
+    /\ (ign = true -> body = utf8s s)
+    /\ (ign = false -> exists ls, Forall2 (seg_ids_rel b) (scan (b_sv b) s 0) ls /\ body = concat ls).
+Proof.
+  unfold byte_base. intros Hb. apply mk_base_spec in Hb as (Hoff & Hsv & Hp & Hq & _).
+  repeat split; try assumption. unfold byte_tokenize, add_pre_suf. destruct ign.
+  - rewrite byte_body_ign. eexists; split; [reflexivity|]. split; [reflexivity|discriminate].
+  - destruct (byte_body_parse b s) as (ls & -> & Hls). eexists; split; [reflexivity|].
+    split; [discriminate|]. intros _. exists ls. auto.
+Qed.
+
+(** decoding *)
+Lemma bdb_app b x y ign : byte_decode_bytes b (x ++ y) ign =
+  obind (byte_decode_bytes b x ign) (fun bx => option_map (app bx) (byte_decode_bytes b y ign)).
+Proof.
+  induction x as [|i x IH]; cbn [app byte_decode_bytes obind].
+  - destruct (byte_decode_bytes b y ign); reflexivity.
+  - destruct (i <? 256).
+    + rewrite IH. destruct (byte_decode_bytes b x ign); cbn; [|reflexivity].
+      destruct (byte_decode_bytes b y ign); reflexivity.
+    + destruct ign; [exact IH|]. destruct (sp_tok (b_off b) (b_sv b) i); [|reflexivity].
+      rewrite IH. destruct (byte_decode_bytes b x false); cbn; [|reflexivity].
+      destruct (byte_decode_bytes b y false); cbn; [rewrite app_assoc|]; reflexivity.
+Qed.
+
+Lemma bdb_bytes b l ign : Forall (fun x => x < 256) l -> byte_decode_bytes b l ign = Some l.
+Proof.
+  induction 1 as [|x l Hx Hl IH]; cbn [byte_decode_bytes]; [reflexivity|].
+  replace (x <? 256) with true by lia. rewrite IH. reflexivity.
+Qed.
+
+Lemma bdb_specials b toks ids : 256 <= b_off b -> ids_of b toks ids ->
+  byte_decode_bytes b ids false = Some (utf8s (concat toks)).
+Proof.
+  intros Hoff. induction 1 as [|t i toks ids Hi Hr IH]; cbn [byte_decode_bytes concat]; [reflexivity|].
+  apply sp_id_tok in Hi as (Ht & Hge & _). replace (i <? 256) with false by lia.
+  rewrite Ht, IH. cbn. rewrite utf8s_app. reflexivity.
+Qed.
+
+Lemma bdb_segs b segs ls : 256 <= b_off b ->
+  Forall (fun g => scalars (seg_str g) = true) segs ->
+  Forall2 (seg_ids_rel b) segs ls ->
+  byte_decode_bytes b (concat ls) false = Some (utf8s (concat (map seg_str segs))).
+Proof.
+  intros Hoff Hsc H. induction H as [|g l segs ls Hg Hr IH]; cbn [concat map]; [reflexivity|].
+  inversion Hsc as [|? ? Hg1 Hs1]; subst. rewrite bdb_app, (IH Hs1), utf8s_app. destruct g as [r|t]; cbn in Hg.
+  - subst l. rewrite bdb_bytes by (apply utf8s_lt256; exact Hg1). reflexivity.
+  - destruct Hg as (i & Hi & ->). apply sp_id_tok in Hi as (Ht & Hge & _). cbn [byte_decode_bytes].
+    replace (i <? 256) with false by lia. rewrite Ht. cbn. rewrite app_nil_r. reflexivity.
+Qed.
+
+Lemma ids_of_In b toks ids : ids_of b toks ids -> Forall (fun t => In t (b_sv b)) toks.
+Proof. induction 1 as [|t i toks ids Hi Hr IH]; constructor; [eapply sp_id_Some_In; eauto|exact IH]. Qed.
+
+Lemma Forall_In_sub {A} (P : A -> Prop) l m : Forall P l -> Forall (fun t => In t l) m -> Forall P m.
+Proof. intros Hl Hm. rewrite Forall_forall in *. auto. Qed.
+
+Lemma scan_scalars toks s : Forall (fun t => t <> []) toks -> scalars s = true ->
+  Forall (fun g => scalars (seg_str g) = true) (scan toks s 0).
+Proof.
+  intros Hne Hs. pose proof (scan_skipn _ Hne s 0) as Hcat. cbn [skipn] in Hcat.
+  assert (Hall : scalars (concat (map seg_str (scan toks s 0))) = true) by (rewrite Hcat; exact Hs).
+  revert Hall. generalize (scan toks s 0). induction l as [|g l IH]; [constructor|].
+  cbn [map concat]. rewrite scalars_app. intros H. apply andb_true_iff in H as [H1 H2]. constructor; auto.
+Qed.
+
+Lemma byte_body_decodes b s ign body : 256 <= b_off b ->
+  Forall (fun t => t <> []) (b_sv b) -> scalars s = true ->
+  byte_body b s ign = Some body -> byte_decode_bytes b body false = Some (utf8s s).
+Proof.
+  intros Hoff Hne Hs. destruct ign.
+  - rewrite byte_body_ign. intros H. injection H as <-. apply bdb_bytes. apply utf8s_lt256. exact Hs.
+  - destruct (byte_body_parse b s) as (ls & -> & Hls). intros H. injection H as <-.
+    rewrite (bdb_segs b (scan (b_sv b) s 0) ls Hoff); [| |exact Hls].
+    + rewrite scan_skipn by exact Hne. reflexivity.
+    + apply scan_scalars; assumption.
+Qed.
+
+Lemma byte_body_some b s ign : exists body, byte_body b s ign = Some body.
+Proof.
+  destruct ign; [rewrite byte_body_ign; eexists; reflexivity|].
+  destruct (byte_body_parse b s) as (ls & -> & _). eexists; reflexivity.
+Qed.
+
+Lemma byte_roundtrip_l tokens padto pad prefix suffix b s ign :
+  byte_base tokens padto pad prefix suffix = Some b ->
+  Forall (fun t => t <> []) (b_sv b) -> Forall (fun t => scalars t = true) (b_sv b) -> scalars s = true ->
+  exists ids, byte_tokenize b s ign = Some ids
+    /\ byte_decode b ids false = Some (concat prefix ++ s ++ concat suffix)
+    /\ byte_decode b (middle b ids) false = Some s.
+Proof.
+  intros Hb Hne Hsc Hs.
+  destruct (byte_tokenize_shape_l _ _ _ _ _ _ s ign Hb) as (Hp & Hq & Hoff & _).
+  assert (Hoff' : 256 <= b_off b) by lia.
+  destruct (byte_body_some b s ign) as [body Hbd].
+  pose proof (byte_body_decodes b s ign body Hoff' Hne Hs Hbd) as Hbody.
+  unfold byte_tokenize, add_pre_suf. rewrite Hbd. cbn [option_map].
+  exists (b_pre b ++ body ++ b_suf b). split; [reflexivity|]. unfold byte_decode. split.
+  - rewrite !bdb_app, (bdb_specials b _ _ Hoff' Hp), (bdb_specials b _ _ Hoff' Hq), Hbody. cbn [obind option_map].
+    rewrite <- !utf8s_app. apply utf8_decode_utf8s. rewrite !scalars_app, Hs.
+    rewrite !scalars_concat; [reflexivity| |].
+    + eapply Forall_In_sub; [exact Hsc|eapply ids_of_In; eauto].
+    + eapply Forall_In_sub; [exact Hsc|eapply ids_of_In; eauto].
+  - rewrite middle_app, Hbody. cbn [obind]. apply utf8_decode_utf8s. exact Hs.
+Qed.
+
+(** * character tokenizer *)
+Fixpoint n_chars (g : bool) (segs : list seg) (os : list (list cluster)) : nat :=
+  match segs with
+  | [] => 0
+  | Reg r :: rest => length (clusters_of g r (hd [] os)) + n_chars g rest (tl os)
+  | Spec _ :: rest => 1 + n_chars g rest os
+  end.
+
+Lemma char_segs_len b A u g segs : forall os, length (char_segs_ids b A u g segs os) = n_chars g segs os.
+Proof.
+  induction segs as [|[r|t] rest IH]; intros os; cbn [char_segs_ids n_chars]; [reflexivity| |].
+  - rewrite app_length, map_length, IH. reflexivity.
+  - cbn [length]. rewrite IH. reflexivity.
+Qed.
+
+Lemma char_base_spec A tokens unk pad prefix suffix b :
+  char_base A tokens unk pad prefix suffix = Some b ->
+  b_off b = N.of_nat (length A) /\ ids_of b prefix (b_pre b) /\ ids_of b suffix (b_suf b) /\
+  exists u, sp_id (b_off b) (b_sv b) unk = Some u /\ N.of_nat (length A) <= u.
+Proof.
+  unfold char_base. intros Hb. apply mk_base_spec in Hb as (Hoff & Hsv & Hp & Hq & _).
+  repeat split; try assumption.
+  destruct (sp_id_In (b_off b) (b_sv b) unk) as [u Hu].
+  { rewrite Hsv. apply uniq_In. apply in_or_app. right. left. reflexivity. }
+  exists u. split; [exact Hu|]. apply sp_id_tok in Hu. lia.
+Qed.
+
+Lemma char_id_out A u c : (forall x, c = [x] -> ~ In x A) -> char_id A u c = u.
+Proof.
+  intros H. destruct c as [|x [|y c]]; cbn [char_id]; try reflexivity.
+  destruct (index_ofN x A) as [i|] eqn:E; [|reflexivity].
+  exfalso. apply (H x eq_refl). apply index_ofN_nth in E. eapply nth_error_In; eauto.
+Qed.
+
+Lemma nth_index_ofN l : NoDup l -> forall k c, nth_error l k = Some c -> index_ofN c l = Some k.
+Proof.
+  induction 1 as [|x l Hx Hl IH]; intros k c; [destruct k; discriminate|].
+  destruct k as [|k]; cbn [nth_error index_ofN].
+  - intros H. injection H as ->. rewrite N.eqb_refl. reflexivity.
+  - intros H. destruct (N.eqb c x) eqn:E.
+    + apply N.eqb_eq in E. subst. exfalso. apply Hx. eapply nth_error_In. exact H.
+    + rewrite (IH _ _ H). reflexivity.
+Qed.
+
+Lemma char_id_in A u x i : NoDup A -> nth_error A i = Some x -> char_id A u [x] = N.of_nat i.
+Proof. intros Hnd H. cbn [char_id]. rewrite (nth_index_ofN _ Hnd _ _ H). reflexivity. Qed.
+
+Lemma char_body_ign b A unk g s os u : sp_id (b_off b) (b_sv b) unk = Some u ->
+  char_body b A unk g s true os = Some (map (char_id A u) (clusters_of g s (hd [] os))).
+Proof. unfold char_body, split_input. intros ->. cbn [char_segs_ids]. rewrite app_nil_r. reflexivity. Qed.
+
+Lemma char_len_l A tokens unk pad prefix suffix b g s ign os :
+  char_base A tokens unk pad prefix suffix = Some b ->
+  exists ids, char_tokenize b A unk g s ign os = Some ids /\
+    length ids = (length prefix + n_chars g (split_input (b_sv b) s ign) os + length suffix)%nat.
+Proof.
+  intros Hb. apply char_base_spec in Hb as (Hoff & Hp & Hq & u & Hu & _).
+  unfold char_tokenize, char_body. rewrite Hu. cbn [option_map]. eexists; split; [reflexivity|].
+  unfold add_pre_suf. rewrite !app_length, char_segs_len, (ids_of_length _ _ _ Hp), (ids_of_length _ _ _ Hq). lia.
+Qed.
+
+(** decoding *)
+Lemma cd_app b A x y ign : char_decode b A (x ++ y) ign =
+  obind (char_decode b A x ign) (fun sx => option_map (app sx) (char_decode b A y ign)).
+Proof.
+  induction x as [|i x IH]; cbn [app char_decode obind].
+  - destruct (char_decode b A y ign); reflexivity.
+  - destruct (nth_error A (N.to_nat i)).
+    + rewrite IH. destruct (char_decode b A x ign); cbn; [|reflexivity].
+      destruct (char_decode b A y ign); reflexivity.
+    + destruct ign; [exact IH|]. destruct (sp_tok (b_off b) (b_sv b) i); [|reflexivity].
+      rewrite IH. destruct (char_decode b A x false); cbn; [|reflexivity].
+      destruct (char_decode b A y false); cbn; [rewrite app_assoc|]; reflexivity.
+Qed.
+
+Lemma cd_special b (A : list cp) t i : N.of_nat (length A) <= b_off b -> sp_id (b_off b) (b_sv b) t = Some i ->
+  nth_error A (N.to_nat i) = None /\ sp_tok (b_off b) (b_sv b) i = Some t.
+Proof.
+  intros Hoff Hi. apply sp_id_tok in Hi as (Ht & Hge & _). split; [|exact Ht].
+  apply nth_error_None. lia.
+Qed.
+
+Lemma cd_specials b A toks ids : N.of_nat (length A) <= b_off b -> ids_of b toks ids ->
+  char_decode b A ids false = Some (concat toks).
+Proof.
+  intros Hoff. induction 1 as [|t i toks ids Hi Hr IH]; cbn [char_decode concat]; [reflexivity|].
+  destruct (cd_special b A t i Hoff Hi) as [-> ->]. rewrite IH. reflexivity.
+Qed.
+
+Definition in_alpha (A : list cp) (c : cluster) : bool :=
+  match c with [x] => match index_ofN x A with Some _ => true | None => false end | _ => false end.
+
+Lemma cd_clusters b A u cls ign : forallb (in_alpha A) cls = true ->
+  char_decode b A (map (char_id A u) cls) ign = Some (concat cls).
+Proof.
+  induction cls as [|c cls IH]; cbn [forallb map char_decode concat]; [reflexivity|].
+  intros H. apply andb_true_iff in H as [H1 H2]. destruct c as [|x [|y c]]; cbn in H1; try discriminate.
+  cbn [char_id]. destruct (index_ofN x A) as [k|] eqn:E; [|discriminate].
+  rewrite Nat2N.id. pose proof (index_ofN_nth _ _ _ E) as Hn. unfold cp in *. rewrite Hn, (IH H2). reflexivity.
+Qed.
+
+Fixpoint clusters_ok (g : bool) (segs : list seg) (os : list (list cluster)) : Prop :=
+  match segs with
+  | [] => True
+  | Reg r :: rest => concat (clusters_of g r (hd [] os)) = r /\ clusters_ok g rest (tl os)
+  | Spec _ :: rest => clusters_ok g rest os
+  end.
+
+Lemma concat_singletons (s : str) : concat (singletons s) = s.
+Proof. unfold singletons. induction s as [|c s IH]; cbn; [reflexivity|]. rewrite IH. reflexivity. Qed.
+
+Lemma clusters_ok_cp segs : forall os, clusters_ok false segs os.
+Proof.
+  induction segs as [|[r|t] rest IH]; intros os; cbn [clusters_ok]; auto.
+  split; [apply concat_singletons|apply IH].
+Qed.
+
+Lemma clusters_ok_oracle segs : forall os, oracle_okb segs os = true -> clusters_ok true segs os.
+Proof.
+  induction segs as [|[r|t] rest IH]; intros os; cbn [clusters_ok oracle_okb]; auto.
+  destruct os as [|o os]; [discriminate|]. intros H.
+  apply andb_true_iff in H as [H H3]. apply andb_true_iff in H as [H1 _].
+  cbn [hd tl clusters_of]. split; [apply nlist_eqb_eq; exact H1|apply IH; exact H3].
+Qed.
+
+Lemma cd_segs b A u g segs : N.of_nat (length A) <= b_off b ->
+  Forall (seg_in (b_sv b)) segs -> forall os,
+  clusters_ok g segs os -> over_alphabet A g segs os = true ->
+  char_decode b A (char_segs_ids b A u g segs os) false = Some (concat (map seg_str segs)).
+Proof.
+  intros Hoff. induction 1 as [|sg segs Hg Hs IH]; intros os Hok Hov; [reflexivity|].
+  destruct sg as [r|t]; cbn [char_segs_ids clusters_ok over_alphabet map concat seg_str] in *.
+  - destruct Hok as [Hc Hok]. apply andb_true_iff in Hov as [Ha Hov].
+    rewrite cd_app, (cd_clusters b A u _ false Ha), (IH _ Hok Hov), Hc. reflexivity.
+  - destruct (sp_id_In (b_off b) _ _ Hg) as [i Hi]. rewrite Hi. cbn [char_decode].
+    destruct (cd_special b A t i Hoff Hi) as [-> ->]. rewrite (IH _ Hok Hov). reflexivity.
+Qed.
+
+Lemma split_input_cat sv s ign : (ign = false -> Forall (fun t => t <> []) sv) ->
+  concat (map seg_str (split_input sv s ign)) = s.
+Proof.
+  intros H. unfold split_input. destruct ign; [cbn; apply app_nil_r|].
+  rewrite scan_skipn by auto. reflexivity.
+Qed.
+
+Lemma split_input_seg_in sv s ign : s <> [] \/ ign = false -> Forall (seg_in sv) (split_input sv s ign).
+Proof.
+  unfold split_input. destruct ign; [|intros _; apply scan_seg_in].
+  intros [H|H]; [|discriminate]. constructor; [exact H|constructor].
+Qed.
+
+Lemma char_roundtrip_l A tokens unk pad prefix suffix b g s ign os :
+  char_base A tokens unk pad prefix suffix = Some b ->
+  (ign = false -> Forall (fun t => t <> []) (b_sv b)) ->
+  clusters_ok g (split_input (b_sv b) s ign) os ->
+  over_alphabet A g (split_input (b_sv b) s ign) os = true ->
+  exists ids, char_tokenize b A unk g s ign os = Some ids
+    /\ char_decode b A ids false = Some (concat prefix ++ s ++ concat suffix)
+    /\ char_decode b A (middle b ids) false = Some s.
+Proof.
+  intros Hb Hne Hok Hov. apply char_base_spec in Hb as (Hoff & Hp & Hq & u & Hu & _).
+  assert (Hoff' : N.of_nat (length A) <= b_off b) by lia.
+  unfold char_tokenize, char_body. rewrite Hu. cbn [option_map]. eexists; split; [reflexivity|].
+  assert (Hbody : char_decode b A (char_segs_ids b A u g (split_input (b_sv b) s ign) os) false = Some s).
+  { destruct s as [|c s'].
+    - (* the empty text: no character at all *)
+      unfold split_input in *. destruct ign; cbn [scan] in *; [|reflexivity].
+      cbn [char_segs_ids clusters_ok] in *. destruct Hok as [Hc _]. rewrite app_nil_r.
+      destruct (clusters_of g [] (hd [] os)) as [|c cls] eqn:E; [reflexivity|].
+      cbn [over_alphabet] in Hov. rewrite E in Hov. apply andb_true_iff in Hov as [Ha _].
+      rewrite (cd_clusters b A u _ false Ha). rewrite Hc. reflexivity.
+    - rewrite (cd_segs b A u g _ Hoff'); [|apply split_input_seg_in; left; discriminate|exact Hok|exact Hov].
+      rewrite split_input_cat by exact Hne. reflexivity. }
+  unfold add_pre_suf. split.
+  - rewrite !cd_app, (cd_specials b A _ _ Hoff' Hp), (cd_specials b A _ _ Hoff' Hq), Hbody. reflexivity.
+  - rewrite middle_app. exact Hbody.
+Qed.
+
+(** * the scan is the leftmost-first split: a special segment is the first alternative matching
+    where it starts, and no alternative matches at any position inside a regular segment *)
+Fixpoint leftmost (toks : list str) (segs : list seg) : Prop :=
+  match segs with
+  | [] => True
+  | Reg r :: tl =>
+    (forall i, (i < length r)%nat -> first_match toks (skipn i r ++ concat (map seg_str tl)) = None)
+    /\ leftmost toks tl
+  | Spec t :: tl => first_match toks (t ++ concat (map seg_str tl)) = Some t /\ leftmost toks tl
+  end.
+
+Lemma scan_leftmost_l toks : Forall (fun t => t <> []) toks -> forall s k, leftmost toks (scan toks s k).
+Proof.
+  intros Hne. induction s as [|c r IH]; intros k; cbn [scan]; [exact Logic.I|].
+  destruct k as [|k]; [|apply IH].
+  destruct (first_match toks (c :: r)) as [t|] eqn:E.
+  - cbn [leftmost]. split; [|apply IH]. rewrite scan_skipn by exact Hne.
+    pose proof E as E'. apply first_match_spec in E' as [Hin Hp].
+    pose proof (is_prefix_app _ _ Hp) as Hs. rewrite Forall_forall in Hne. specialize (Hne _ Hin).
+    destruct t as [|a t]; [congruence|]. cbn [length skipn app] in Hs |- *.
+    replace (S (length t) - 1)%nat with (length t) by lia.
+    rewrite <- Hs. exact E.
+  - pose proof (scan_skipn _ Hne r 0) as Hcat. cbn [skipn] in Hcat. specialize (IH O).
+    destruct (scan toks r 0) as [|[r'|t'] rest]; cbn [cons_reg leftmost].
+    + cbn in Hcat. subst r. split; [|exact Logic.I]. intros i Hi. cbn in Hi.
+      assert (i = O) by lia. subst i. exact E.
+    + cbn [leftmost] in IH. destruct IH as [IH1 IH2]. split; [|exact IH2].
+      cbn [map concat seg_str] in Hcat. intros [|i] Hi.
+      * cbn [skipn app]. rewrite Hcat. exact E.
+      * cbn [skipn]. apply IH1. cbn in Hi. lia.
+    + split; [|exact IH]. intros i Hi. cbn in Hi. assert (i = O) by lia. subst i.
+      cbn [skipn app]. rewrite Hcat. exact E.
+Qed.
+
+(** no two regular segments are adjacent (regular segments are maximal) *)
+Fixpoint no_adjacent_reg (segs : list seg) : Prop :=
+  match segs with
+  | Reg _ :: ((Reg _ :: _) as tl) => False
+  | _ :: tl => no_adjacent_reg tl
+  | [] => True
+  end.
+
+Lemma scan_no_adjacent toks s k : no_adjacent_reg (scan toks s k).
+Proof.
+  revert k; induction s as [|c r IH]; intros k; cbn [scan]; [exact Logic.I|].
+  destruct k as [|k]; [|apply IH]. destruct (first_match toks (c :: r)).
+  - cbn [no_adjacent_reg]. apply IH.
+  - specialize (IH O). destruct (scan toks r 0) as [|[r'|t'] rest]; cbn [cons_reg]; [exact Logic.I| |].
+    + destruct rest as [|[r2|t2] rest']; cbn [no_adjacent_reg] in *; auto.
+    + cbn [no_adjacent_reg] in *. exact IH.
+Qed.
